@@ -20,7 +20,7 @@ EXPLANATION = (
 ASSUMPTIONS = ["rayon::join / ThreadPool::join run both closures exactly once and return after both finished",
                "checked in the dev profile (debug assertions on), as the property states"]
 TRUSTED = ["rustc nightly MIR construction", "shred-facts driver", "shredlint analyses"]
-TECHNIQUE = 'static: FANOUT coverage of Par/Seq run/setup/reads/writes (incl. join closures), dominance order in Seq, decision table of the debug conflict check in Par::with with operand roles, wiring terms, compile_fail witness'
+TECHNIQUE = 'static: FANOUT coverage of Par/Seq run/setup/reads/writes (incl. join closures), head-before-tail order and join nesting per way of the structured evaluation, decision table of the debug conflict check in Par::with with operand roles, wiring terms, compile_fail witness'
 RULE_TEXT = "one obligation per (node method, child), per path of Par::with, per wiring site"
 
 
